@@ -1,11 +1,15 @@
-INIT ObsInit
+INIT ObsInitNoDup
 NEXT Next
 CONSTANTS Configs = {}
   CountBasedCheck = FALSE
   SkipEpochWithoutRow = FALSE
   LoadEveryEngine = TRUE
   LoadOnlyOwnTargets = FALSE
+  CrashOnDuplicate = FALSE
+  KeepDuplicates = FALSE
+  CreateMissingTables = FALSE
 INVARIANT ImportFaithful
 INVARIANT NoStaleState
 INVARIANT ObsReachFilter
+INVARIANT RunContinues
 PROPERTY ImporterReadOnly
